@@ -414,6 +414,25 @@ impl<'a> Model<'a> {
                 d.lo_t = entry.0.saturating_sub(100_000);
             }
         }
+        // A message cannot have been handed out before its Publish was invoked: for a consumer that
+        // was parked long before the message existed this is a much better bound than "since the
+        // pull was invoked" (a lease that is dated from the request's arrival would otherwise hide
+        // behind the uncertainty window).
+        for i in 0..m.deliveries.len() {
+            let key = m.deliveries[i].recv.msg_id.clone();
+            if let Some(list) = m.by_msg_id.get(&key) {
+                if list.len() == 1 {
+                    let pc = &m.calls[&m.published[list[0]].call];
+                    let d = &mut m.deliveries[i];
+                    if pc.inv_t > d.lo_t {
+                        d.lo_t = pc.inv_t.min(d.recv_t);
+                    }
+                    if d.lo_seq > 0 && pc.inv_seq > d.lo_seq {
+                        d.lo_seq = pc.inv_seq.min(d.recv_seq);
+                    }
+                }
+            }
+        }
         for d in m.deliveries.iter() {
             m.deliveries_by_key.entry((d.sub.clone(), d.recv.msg_id.clone())).or_default().push(d.idx);
             if !d.recv.ack_id.is_empty() {
